@@ -348,7 +348,12 @@ def run(rep: Report, repo: Repo, tier: str) -> None:
         extra = [t for t in val if t not in ("-r", "--recursive", "${ARGN}")]
         rep.check(not extra, "C19-R4", where, f"{label}: no other option", f"the options contain {extra}: CMinx receives arguments the "
                   "caller did not pass")
-    no_extra = re.compile(r"NOT\((\$\{ARGC\} GREATER 2|ARGC GREATER 2|\$\{ARGC\} GREATER_EQUAL 3)\)")
+    # variables that hold the number of extra arguments: list(LENGTH ARGN <var>)
+    argn_len = {c.args[2].text for c, _a in items if c.name == "list" and len(c.args) == 3 and c.args[0].text == "LENGTH"
+                and c.args[1].text == "ARGN"}
+    len_alt = "|".join(re.escape(v) + "|\\$\\{" + re.escape(v) + "\\}|" + re.escape(v) + " GREATER 0|\\$\\{" + re.escape(v) + "\\} GREATER 0"
+                       for v in sorted(argn_len))
+    no_extra = re.compile(r"NOT\((\$\{ARGC\} GREATER 2|ARGC GREATER 2|\$\{ARGC\} GREATER_EQUAL 3" + ("|" + len_alt if len_alt else "") + r")\)")
     for isdir, trail, val in paths:
         if val is None or any(no_extra.fullmatch(t) for t in trail):
             continue                # without extra arguments ${ARGN} expands to nothing: present or not is the same command line
@@ -364,7 +369,7 @@ def run(rep: Report, repo: Repo, tier: str) -> None:
         if anc:
             head = anc[0][0].head
             t = " ".join(head.words())
-            okg = len(anc) == 1 and anc[0][1] == "body" and re.fullmatch(r"\$\{ARGC\} GREATER 2|ARGC GREATER 2|\$\{ARGC\} GREATER_EQUAL 3|DEFINED ARGN", t) is not None
+            okg = len(anc) == 1 and anc[0][1] == "body" and re.fullmatch(r"\$\{ARGC\} GREATER 2|ARGC GREATER 2|\$\{ARGC\} GREATER_EQUAL 3|DEFINED ARGN" + ("|" + len_alt if len_alt else ""), t) is not None
             rep.check(okg, "C19-R4", where, head.text(), "ARGN is forwarded only under a condition other than 'extra arguments exist' "
                       "(if(ARGN) evaluates the joined list as a boolean: false for 0/OFF/N and for a list ending in -NOTFOUND)",
                       witness='cminx_gen_rst(dir out -s "${SETTINGS-NOTFOUND}")')
